@@ -666,7 +666,13 @@ fn compare_readers(run: &Run, env: &Env, gd: &GenDef, hops: u8, ra: &Reader, rb:
             return Err(Fail::new("C22:resource-set-differs", format!("resource {:?} ({}) vs {:?} ({})", x.0, x.1, y.0, y.1)));
         }
         let ba = fetch(ra, &x.2);
-        let bb = fetch(rb, &y.2);
+        let mut bb = fetch(rb, &y.2);
+        if env.selftest == 2 && (x.0 == "claim thumbnail" || x.0.ends_with(" icon")) {
+            // sensitivity: answer a manifest-level resource with an ingredient's resource bytes
+            if let Some(other) = fb.iter().find(|z| z.0.starts_with("ingredient") && z.0.ends_with(" thumbnail")) {
+                bb = fetch(rb, &other.2);
+            }
+        }
         match (ba, bb) {
             (Ok(p), Ok(q)) => {
                 if p != q {
@@ -864,6 +870,196 @@ fn judge_ingredient_archive(run: &Run, env: &Env, c: &ICase) -> CaseResult {
     })
 }
 
+// ---- stream: same-label resources in the builder and in an SDK-signed (v2) ingredient ---------------------
+
+/// Ingredient assets signed by the harness with this SDK (claim v2) that carry their OWN claim thumbnail
+/// (`c2pa.thumbnail.claim`) and/or claim generator icon (`c2pa.icon`) — the same assertion labels (and
+/// instance 0) an outer builder with a thumbnail/icon uses, with different bytes.
+/// kind bit 0: thumbnail, bit 1: icon (kind 1..=3); the bytes depend on `variant` (two different ingredients).
+fn rich_ingredient(kind: u8, variant: u8) -> (String, Vec<u8>) {
+    static CACHE: std::sync::Mutex<Vec<((u8, u8), Vec<u8>)>> = std::sync::Mutex::new(Vec::new());
+    let key = (kind, variant);
+    let mut g = CACHE.lock().unwrap();
+    if let Some(e) = g.iter().find(|e| e.0 == key) {
+        return ("image/png".into(), e.1.clone());
+    }
+    let mut r = vh::rng::SplitMix64::new(0x51C0_0000 + kind as u64 * 16 + variant as u64);
+    let mut def = json!({
+        "title": format!("rich-ingredient-{kind}-{variant}.png"),
+        "claim_generator_info": [{ "name": "verif-rich-ingredient-maker", "version": "1.0" }],
+        "assertions": [ { "label": "org.verif.note", "data": { "note": "rich ingredient", "kind": kind, "variant": variant } } ]
+    });
+    let mut b_res: Vec<(String, Vec<u8>)> = vec![];
+    if kind & 1 != 0 {
+        let mut t = vec![0xFF, 0xD8, 0xFF, 0xE0, 0x00, 0x10, b'J', b'F', b'I', b'F', 0x00];
+        t.extend(r.bytes(700 + 97 * variant as usize));
+        t.extend(b"INGREDIENT-THUMBNAIL");
+        t.extend([0xFF, 0xD9]);
+        def["thumbnail"] = json!({ "format": "image/jpeg", "identifier": "rich-thumb.jpg" });
+        b_res.push(("rich-thumb.jpg".into(), t));
+    }
+    if kind & 2 != 0 {
+        let icon = format!("<svg xmlns=\"http://www.w3.org/2000/svg\"><!-- INGREDIENT ICON {kind}/{variant} {} --></svg>", r.next_u64()).into_bytes();
+        def["claim_generator_info"][0]["icon"] = json!({ "format": "image/svg+xml", "identifier": "rich-icon.svg" });
+        b_res.push(("rich-icon.svg".into(), icon));
+    }
+    let mut b = Builder::from_context(sdk::context()).with_definition(def.to_string()).expect("rich ingredient definition");
+    b.set_intent(c2pa::BuilderIntent::Create(c2pa::DigitalSourceType::DigitalCapture));
+    for (id, bytes) in b_res {
+        b.add_resource(&id, Cursor::new(bytes)).expect("rich ingredient resource");
+    }
+    let signer = sdk::signer(if variant % 2 == 0 { "es256" } else { "ps384" });
+    let mut src = Cursor::new(sdk::fixture("libpng-test.png"));
+    let mut dst = Cursor::new(Vec::new());
+    b.sign(signer.as_ref(), "image/png", &mut src, &mut dst).expect("rich ingredient signature");
+    let bytes = dst.into_inner();
+    g.push((key, bytes.clone()));
+    ("image/png".into(), bytes)
+}
+
+#[derive(Clone, Debug, Serialize, Deserialize, PartialEq, Eq, Hash)]
+struct SCase {
+    asset: u8,
+    alg: u8,
+    hops: u8,
+    route: u8,
+    /// outer builder: bit 0 claim thumbnail, bit 1 generator icon (1..=3)
+    outer: u8,
+    /// rich ingredients: kinds (1..=3 each), 1 or 2 of them
+    rich: Vec<u8>,
+    /// 0 none, 1 unsigned PNG stream, 2 C.jpg, 3 JSON-only — an additional ordinary ingredient
+    other: u8,
+    /// the ordinary ingredient comes first (true) or last
+    other_first: bool,
+    /// one rich ingredient is the parentOf ingredient of an Edit intent
+    edit: bool,
+    seed: u64,
+}
+
+fn judge_same_label(run: &Run, env: &Env, c: &SCase) -> CaseResult {
+    use defgen::{ExpIngredient, ExpResource, Expectation, IntentKind};
+    let mut r = vh::rng::SplitMix64::new(c.seed ^ 0x5A3E_1ABE);
+    let case = Case { asset: c.asset, alg: c.alg, hops: c.hops, route: c.route, thumbs: false, spec: DefSpec::default() };
+    let ai = c.asset as usize % ASSETS.len();
+    let (alabel, mime, _) = ASSETS[ai];
+    let src = &env.assets[ai];
+    let hops = 1 + (c.hops % 3);
+    let outer = if c.outer % 4 == 0 { 1 } else { c.outer % 4 };
+    run.count(&format!("samelabel_asset_{alabel}"));
+    run.count(&format!("samelabel_hops_{hops}"));
+    run.count(&format!("samelabel_outer_{}", ["", "thumbnail", "icon", "thumbnail+icon"][outer as usize]));
+
+    // ---- outer definition with its own thumbnail / icon (bytes differ from every ingredient's) -----------
+    let mut exp = Expectation { claim_version: 2, ..Expectation::default() };
+    let mut resources: Vec<(String, Vec<u8>)> = vec![];
+    let mut cgi = json!({ "name": "verif-outer", "version": "2.0" });
+    let mut def = json!({
+        "title": format!("outer {}", r.below(100000)),
+        "assertions": [ { "label": "org.verif.outer", "data": { "n": r.below(1000), "text": "outer assertion" } } ]
+    });
+    if outer & 1 != 0 {
+        let mut t = vec![0xFF, 0xD8, 0xFF, 0xE0, 0x00, 0x10, b'J', b'F', b'I', b'F', 0x00];
+        let tn = 300 + r.usize(3000);
+        t.extend(r.bytes(tn));
+        t.extend(b"OUTER-THUMBNAIL");
+        t.extend([0xFF, 0xD9]);
+        def["thumbnail"] = json!({ "format": "image/jpeg", "identifier": "outer-thumb.jpg" });
+        resources.push(("outer-thumb.jpg".into(), t.clone()));
+        exp.resources.push(ExpResource { kind: ResKind::ClaimThumbnail, format: "image/jpeg".into(), bytes: t });
+    }
+    if outer & 2 != 0 {
+        let icon = format!("<svg xmlns=\"http://www.w3.org/2000/svg\"><!-- OUTER ICON {} --></svg>", r.next_u64()).into_bytes();
+        cgi["icon"] = json!({ "format": "image/svg+xml", "identifier": "outer-icon.svg" });
+        resources.push(("outer-icon.svg".into(), icon.clone()));
+        exp.resources.push(ExpResource { kind: ResKind::GeneratorIcon(0), format: "image/svg+xml".into(), bytes: icon });
+    }
+    def["claim_generator_info"] = json!([cgi]);
+
+    // ---- ingredient plan ---------------------------------------------------------------------------------
+    // (json, Some((mime, bytes)) for stream ingredients / None for a definition ingredient)
+    let mut plan: Vec<(Value, Option<(String, Vec<u8>)>, bool)> = vec![];
+    let mut same_label = false;
+    for (i, k) in c.rich.iter().take(2).enumerate() {
+        let kind = if k % 4 == 0 { 3 } else { k % 4 };
+        if kind & outer != 0 {
+            same_label = true;
+        }
+        let rel = if c.edit && i == 0 { "parentOf" } else if r.chance(1, 4) { "inputTo" } else { "componentOf" };
+        let j = json!({ "title": format!("rich {i} kind {kind}"), "relationship": rel, "label": format!("rich_{i}") });
+        plan.push((j, Some(rich_ingredient(kind, i as u8)), true));
+        run.count(&format!("samelabel_rich_kind_{}", ["", "thumbnail", "icon", "thumbnail+icon"][kind as usize]));
+    }
+    let other = match c.other % 4 {
+        1 => Some((json!({ "title": "plain.png", "relationship": "componentOf" }), Some(("image/png".to_string(), sdk::fixture("libpng-test.png"))), false)),
+        2 => Some((json!({ "title": "C.jpg", "relationship": "componentOf" }), Some(("image/jpeg".to_string(), sdk::fixture("C.jpg"))), true)),
+        3 => Some((json!({ "title": "json only", "relationship": "componentOf", "format": "image/png", "instance_id": "xmp:iid:verif-json-only" }), None, false)),
+        _ => None,
+    };
+    if let Some(o) = other {
+        if c.other_first {
+            plan.insert(0, o);
+        } else {
+            plan.push(o);
+        }
+    }
+    // definition ingredients are reported first
+    let json_only: Vec<Value> = plan.iter().filter(|p| p.1.is_none()).map(|p| p.0.clone()).collect();
+    if !json_only.is_empty() {
+        def["ingredients"] = json!(json_only);
+    }
+    for p in plan.iter().filter(|p| p.1.is_none()).chain(plan.iter().filter(|p| p.1.is_some())) {
+        exp.ingredients.push(ExpIngredient {
+            title: p.0["title"].as_str().map(String::from),
+            format: None,
+            relationship: p.0["relationship"].as_str().unwrap_or("componentOf").to_string(),
+            has_manifest: p.2,
+            description: None,
+            informational_uri: None,
+        });
+    }
+    if same_label {
+        run.count("same_label_resource_in_ingredient");
+    }
+    let intent = if c.edit { IntentKind::Edit } else { IntentKind::Create("http://c2pa.org/digitalsourcetype/empty".into()) };
+    let gd = GenDef { json: def, intent, expect: exp, features: vec![], stream_ingredients: vec![], resources, boundary: 0 };
+
+    let make = || -> c2pa::Result<Builder> {
+        let mut b = gd.builder(ctx(&case), &gd.json)?;
+        for p in &plan {
+            if let Some((m, bytes)) = &p.1 {
+                b.add_ingredient_from_stream(p.0.to_string(), m, &mut Cursor::new(bytes.clone()))?;
+            }
+        }
+        Ok(b)
+    };
+    let mut a = make().map_err(|e| Fail::new(format!("C22:samelabel-setup:{}", err_variant(&e)), format!("{e}")))?;
+    let ra = sign_and_read(&case, &mut a, mime, src).map_err(|f| {
+        if f.signature.starts_with("C22:") { f } else { Fail::new(format!("C22:samelabel-direct-{}", f.signature.replace(':', "-failed:")), f.what) }
+    })?;
+    if !sdk::is_valid_or_trusted(&ra) {
+        return Err(Fail::new("C22:samelabel-direct-invalid", format!("directly signed builder reads {:?}", sdk::failure_codes(&ra))));
+    }
+    let mut b = make().map_err(|e| Fail::new(format!("C22:samelabel-setup:{}", err_variant(&e)), format!("{e}")))?;
+    for hop in 0..hops {
+        let mut ar = Cursor::new(Vec::new());
+        match vh::catch(|| b.to_archive(&mut ar)) {
+            Err(p) => return Err(Fail::new(format!("C22:to-archive-panic:{}", vh::core::panic_site(&p)), p)),
+            Ok(Err(e)) => return Err(Fail::new(format!("C22:samelabel-to-archive-failed:{}", err_variant(&e)), format!("hop {hop}: {e}"))),
+            Ok(Ok(())) => {}
+        }
+        b = match vh::catch(|| restore(&case, hop, ar.into_inner())) {
+            Err(p) => return Err(Fail::new(format!("C22:restore-panic:{}", vh::core::panic_site(&p)), p)),
+            Ok(Err(e)) => return Err(Fail::new(format!("C22:samelabel-restore-failed:{}", err_variant(&e)), format!("hop {hop}: {e}"))),
+            Ok(Ok(b)) => b,
+        };
+    }
+    let rb = sign_and_read(&case, &mut b, mime, src).map_err(|f| {
+        if f.signature.starts_with("C22:") { f } else { Fail::new(format!("C22:samelabel-restored-{}", f.signature.replace(':', "-failed:")), format!("the original builder signs and reads fine, the restored one does not: {}", f.what)) }
+    })?;
+    run.nontrivial(c);
+    compare_readers(run, env, &gd, hops, &ra, &rb)
+}
+
 fn main() {
     vh::quiet_panics();
     let run = Run::from_args("C22", "exploration");
@@ -917,6 +1113,33 @@ fn main() {
         }
     }
     run.drive_enum_par("ingredient_archive", icases, 8, |c| judge_ingredient_archive(&run, &env, c));
+
+    // stream: same-label manifest-level resources in the builder and in SDK-signed v2 ingredients
+    {
+        let n = run.scale(60u64, 600u64);
+        let mut sm = vh::rng::SplitMix64::new(run.seed ^ 0x5A3E);
+        let mut scases = vec![];
+        for i in 0..n {
+            // systematic part: outer kind x rich kind x hops x route rotate, the rest is seeded
+            let outer = 1 + (i % 3) as u8;
+            let k0 = 1 + ((i / 3) % 3) as u8;
+            let two = sm.chance(1, 3);
+            let rich = if two { vec![k0, 1 + sm.usize(3) as u8] } else { vec![k0] };
+            scases.push(SCase {
+                asset: if sm.chance(1, 12) { 4 } else { sm.usize(4) as u8 },
+                alg: sm.usize(7) as u8,
+                hops: ((i / 9) % 3) as u8,
+                route: ((i / 27) % 3) as u8,
+                outer,
+                rich,
+                other: sm.usize(4) as u8,
+                other_first: sm.bool(),
+                edit: sm.chance(1, 4),
+                seed: sm.next_u64(),
+            });
+        }
+        run.drive_enum_par("same_label_resources", scases, 8, |c| judge_same_label(&run, &env, c));
+    }
 
     let rejected = run.hist_get("generator_rejected");
     let evals = run.evals().max(1);
